@@ -394,7 +394,6 @@ def nlist(stmts, info, loop_tail=False):
     out = []
     stmts = _split_tuple_assigns(list(stmts))
     if info is not None:
-        stmts = _sink_and_sort_assigns(stmts, info)
         stmts = _chain_temps(stmts, info)
         stmts = _accumulate_loops(stmts, info)
     i = 0
@@ -421,6 +420,8 @@ def nlist(stmts, info, loop_tail=False):
         out.extend(nstmt(st, info))
         i += 1
     out = [s for s in out if not isinstance(s, ast.Pass)] or ([ast.Pass()] if out else [])
+    if info is not None:
+        out = _sink_and_sort_assigns(out, info)            # (on the flattened list: where an initialisation may stand does not depend on how the block was nested)
     # adjacent guards with the same leaving body are one guard: `if a: X!` ; `if b: X!`  ==  `if a or b: X!`
     k = 0
     while k + 1 < len(out):
@@ -925,6 +926,10 @@ def _retail(out):
         if isinstance(s, ast.If) and not s.orelse and len(s.body) == 1 and isinstance(s.body[0], ast.Continue) and k + 1 < len(out):
             rest = _retail(out[k + 1:])
             return out[:k] + _merge_guard(neg(s.test), rest)
+    # the body of an if that ends the loop body is itself the end of the loop body
+    if out and isinstance(out[-1], ast.If) and not out[-1].orelse and not _is_guard(out[-1]):
+        last = out[-1]
+        return out[:-1] + _merge_guard(last.test, _retail(last.body))
     return out
 
 
